@@ -9,7 +9,9 @@ import (
 	"path/filepath"
 	"sort"
 	"strings"
+	"syscall"
 	"testing"
+	"time"
 
 	"github.com/tsenart/vegeta/v12/internal/simrt"
 	simcommon "github.com/tsenart/vegeta/v12/internal/zzsim/common"
@@ -143,6 +145,8 @@ func runSplitFiles(t *simrt.Tape, keep bool) simrt.Outcome {
 	}
 	var paths []string
 	var fmts []string
+	fifoPart, fifoPath := -1, ""
+	var fifoData []byte
 	for p := 0; p < k; p++ {
 		var mine []vegeta.Result
 		for i := range rs {
@@ -159,8 +163,27 @@ func runSplitFiles(t *simrt.Tape, keep bool) simrt.Outcome {
 			fmt.Println("INFRA:", err)
 			os.Exit(2)
 		}
+		if fifoPart < 0 && k > 1 && t.Prob(1, 6) {
+			// this input is a named pipe (as with process substitution or mkfifo): same bytes, not a regular file
+			fifoData, _ = os.ReadFile(path)
+			os.Remove(path)
+			path = filepath.Join(dir, fmt.Sprintf("split-%d.fifo", p))
+			os.Remove(path)
+			if err := syscall.Mkfifo(path, 0o600); err != nil {
+				fmt.Println("INFRA:", err)
+				os.Exit(2)
+			}
+			fifoPart, fifoPath = p, path
+			f += "(fifo)"
+			r.stats["fault.input-is-a-pipe"]++
+		}
 		paths = append(paths, path)
 		fmts = append(fmts, f)
+	}
+	feed := func() {
+		if fifoPart >= 0 {
+			serveFifo(fifoPath, fifoData)
+		}
 	}
 	union := filepath.Join(dir, "union.bin")
 	if err := writeResults(union, encFormats[t.Choose(3)], rs); err != nil {
@@ -172,6 +195,7 @@ func runSplitFiles(t *simrt.Tape, keep bool) simrt.Outcome {
 	// ---- encode over the split files: the same multiset of records ----
 	out := filepath.Join(dir, "split-out.bin")
 	var err error
+	feed()
 	r.guard("encode command", func() { err = encode(paths, encFormats[t.Choose(3)], out) })
 	if r.viol == nil && err != nil {
 		r.fail("C13.encode-error", nil, "encode over %d files failed: %v", len(paths), err)
@@ -204,6 +228,7 @@ func runSplitFiles(t *simrt.Tape, keep bool) simrt.Outcome {
 		typ := []string{"json", "text", "hist[0,1ms,1s]", "hdrplot"}[t.Choose(4)]
 		a, b := filepath.Join(dir, "rep-split.txt"), filepath.Join(dir, "rep-union.txt")
 		var e1, e2 error
+		feed()
 		r.guard("report command", func() {
 			e1 = report(paths, typ, a, 0, "")
 			e2 = report([]string{union}, typ, b, 0, "")
@@ -303,4 +328,23 @@ func compareReports(typ string, a, b []byte) string {
 		}
 	}
 	return ""
+}
+
+// serveFifo feeds data through a named pipe to whoever opens it for reading within two seconds
+// (a command that never opens the pipe must not leave a writer blocked for ever).
+func serveFifo(path string, data []byte) {
+	go func() {
+		deadline := time.Now().Add(2 * time.Second)
+		for time.Now().Before(deadline) {
+			f, err := os.OpenFile(path, os.O_WRONLY|syscall.O_NONBLOCK, 0)
+			if err != nil {
+				time.Sleep(time.Millisecond)
+				continue
+			}
+			syscall.SetNonblock(int(f.Fd()), false)
+			f.Write(data)
+			f.Close()
+			return
+		}
+	}()
 }
